@@ -19,10 +19,12 @@ import (
 func init() {
 	fw.Register(&fw.Prop{
 		ID:                  "C18",
-		DeadlockIsViolation: true,                       // the calls of this property are synchronous functions of their inputs: a call blocked for good inside the library is a violation
-		Builds:              []string{"default", "386"}, // the 386 build runs 1/12 of the random classes on a 32-bit target
-		Scale386:            12,
-		Parallel:            4, // cases are judged on 4 goroutines per shard: the library functions are stateless, shared state inside them shows up as wrong verdicts
+		DeadlockIsViolation: true,                               // the calls of this property are synchronous functions of their inputs: a call blocked for good inside the library is a violation
+		Builds:              []string{"default", "386", "race"}, // the 386 build runs 1/12 of the random classes on a 32-bit target
+		// race build: only the classes in which several goroutines are inside the library at once, under the race detector
+		RaceClasses: []string{"concurrent"},
+		Scale386:    12,
+		Parallel:    4, // cases are judged on 4 goroutines per shard: the library functions are stateless, shared state inside them shows up as wrong verdicts
 		Rule: "prove: (seed, alpha) with alpha of every length 0..700 (thorough 0..2200) and around 2^10..2^13, proof bytes compared with the RFC 9381 model, then Verify/ProofToHash/Proof.Hash/SetBytes/MarshalBinary agreement; verify: (key, alpha, proof) triples judged two-sidedly against the model: honest, every single-bit flip of honest proofs, Gamma+T for the 8 torsion points, proofs crafted by the key owner around Gamma' = x*H+T with the nonce drawn until c*T is (valid per RFC 9381) or is not (invalid) the neutral element, non-canonical and undecodable Gamma, s+L / s in {L-1, L, L+1}, random 80-byte strings, lengths 0..100 and 80+256j / 80+65536 (a valid proof with a tail), wrong keys, every small-order key encoding (canonical and not), all 38 y>=p key encodings, undecodable keys, and forged proofs that would verify for small-order keys if validate_key were dropped; decode: SetBytes/UnmarshalBinary/ProofToHash succeed iff the model decodes, and re-encode to the input; unique: all accepted proofs for one (key, alpha) give one hash. reuse: eight decodes into ONE Proof object (SetBytes/UnmarshalBinary mixed, undecodable inputs in between): Bytes() and Hash() must describe the bytes decoded last, and the slices handed out after earlier decodes must keep their contents. Keys, alphas and proofs of the prove class are passed as windows into larger buffers whose pattern behind the slice must survive. related: back-to-back Prove/Verify on equal-length alphas that share a long prefix. concurrent: 16 goroutines call Verify/Prove at once against precomputed expectations. " +
 			"Non-trivial: distinct cases outside the purely random classes.",
 		Assumptions: []string{"SHA-512 of the Go standard library", "math/big", "the RFC 9381 model in harness/oracle/ecvrf (self-tested against the three RFC 9381 ECVRF-EDWARDS25519-SHA512-TAI examples)"},
@@ -541,6 +543,14 @@ func undecodable(g *fw.Gen) []byte {
 }
 
 func gen(g *fw.Gen) {
+	if g.Build == "race" {
+		// race build: only the class in which several goroutines are inside the library at once is generated
+		// (the generator of the other classes is expensive under the race detector's instrumentation)
+		for n := g.ShareOf(8, 400); n > 0; n-- {
+			g.Emit("concurrent", fw.Pack(fw.U64(g.Rng.Uint64())))
+		}
+		return
+	}
 	tors := ed.Torsion()
 	var smallEnc [][]byte
 	for _, t := range tors {
